@@ -49,7 +49,8 @@ Step(e) ==
     [] e.a = "Remap"       -> Remap(e.ev.id, e.ev.tgt) /\ e.ev.circ = ts[e.ev.id].circ
     [] e.a = "Succeeded"   -> Succeeded(e.ev.id) /\ e.ev.circ = ts[e.ev.id].circ /\ e.ev.tgt = ts[e.ev.id].tgt
     [] e.a = "Detached"    -> Detached(e.ev.id) /\ e.ev.circ = ts[e.ev.id].circ
-    [] e.a = "StreamGone"  -> StreamGone(e.ev.id, e.ev.st) /\ e.ev.circ = ts[e.ev.id].circ
+    [] e.a = "StreamGone"  -> StreamGone(e.ev.id, e.ev.st, e.z) /\ e.ev.circ = ts[e.ev.id].circ
+    [] e.a = "LateClosed"  -> LateClosed(e.ev.id) /\ e.ev.tgt = ts[e.ev.id].tgt
     [] e.a = "Snapshot"    -> Snapshot
     [] e.a = "AddListener" -> AddListener(e.l)
     [] e.a = "UnlistenC"   -> UnlistenC(e.l, e.id)
